@@ -152,3 +152,28 @@ func (e *Engine) dilRefRun(seconds, keys, seed int) []ExtraResult {
 	}
 	return rs
 }
+
+// stubXofRun: the real polyUniform on stub XOF streams that force the refill path (see harness/dilithium/stubxof_test.go.txt).
+func (e *Engine) stubXofRun() []ExtraResult {
+	t0 := time.Now()
+	src, err := os.ReadFile(filepath.Join(e.repo, "dilithium/poly.go"))
+	if err != nil {
+		return []ExtraResult{{Name: "polyUniform-stub-xof", Backend: "bounded", Bounded: true, OK: false, Detail: err.Error()}}
+	}
+	const ctor = "sha3.NewShake128()"
+	if n := strings.Count(string(src), ctor); n != 1 {
+		return []ExtraResult{{Name: "polyUniform-stub-xof", Backend: "bounded", Bounded: true, OK: false, Detail: fmt.Sprintf("expected exactly one %s in dilithium/poly.go, found %d: the mechanical replacement is not defined", ctor, n)}}
+	}
+	patched := strings.Replace(string(src), ctor, "verifNewShake128()", 1)
+	helper := "package dilithium\n\nimport \"golang.org/x/crypto/sha3\"\n\nvar verifNewShake128 = sha3.NewShake128\n"
+	out, rerr := e.runOverlayTest("dilithium", map[string]string{
+		"dilithium/poly.go":                   patched,
+		"dilithium/zz_verif_stubxof.go":       helper,
+		"dilithium/zz_verif_stubxof_test.go":  readHarness("dilithium/stubxof_test.go.txt"),
+	}, "TestVerifStubXOF", 300)
+	rs := parseBounded(out, "real polyUniform with sha3.NewShake128() replaced by a stub stream (real SHAKE-128 output with 0..120 of the first 300 candidates forced to be rejected, 3 placements each); compared with the specification's sampler on the same stream", time.Since(t0).Seconds())
+	if len(rs) != 1 {
+		rs = append(rs, ExtraResult{Name: "polyUniform-stub-xof", Backend: "bounded", Bounded: true, OK: false, Detail: fmt.Sprintf("stub run reported %d results (err=%v): %s", len(rs), rerr, tailStr(out, 800))})
+	}
+	return rs
+}
